@@ -507,3 +507,31 @@ mod test {
     assert_eq!(container, vec![1, 2, 3, 4, 5]);
   }
 }
+
+#[cfg(feature = "verif_hooks")]
+mod verif_scheduler {
+  use super::*;
+  use crate::verif_hooks::{VerifScheduler, VerifSchedulerThreads};
+
+  macro_rules! verif_local_spawn {
+    ($pool: ident, $future: ident) => {
+      ($pool.0)(Box::pin($future))
+    };
+  }
+
+  impl<T> Scheduler<T> for VerifScheduler
+  where
+    T: Future + 'static,
+    T::Output: TaskReturn,
+  {
+    impl_scheduler_method!(verif_local_spawn);
+  }
+
+  impl<T> Scheduler<T> for VerifSchedulerThreads
+  where
+    T: Future + Send + 'static,
+    T::Output: TaskReturn + Send + 'static,
+  {
+    impl_scheduler_method!(verif_local_spawn);
+  }
+}
